@@ -77,7 +77,17 @@ impl BlobHash {
         let mut res = [0u8; HASH_SIZE];
         hex::decode_to_slice(&buf, &mut res).map_err(TypesError::InvalidHashFormat)?;
 
-        Ok(Self(res))
+        // Only the location `relative_path` produces parses back to a hash. Upper-case digits or
+        // a different split of the 64 digits over the three components name a stray file, not a
+        // blob: nothing that works on canonical paths (reads, deletion, clean-up) could reach it.
+        let hash = Self(res);
+        let canonical = hash.relative_path();
+        let given = [first, second, third];
+        if !canonical.components().eq(given.into_iter().copied()) {
+            return Err(TypesError::InvalidHashFormat(hex::FromHexError::InvalidStringLength));
+        }
+
+        Ok(hash)
     }
 
     #[must_use]
